@@ -1,87 +1,5 @@
-// ---- mp_lemmas.rs: lemmas for modular exponentiation (units int_modpow_large / int_modpow_prim). Word = @W@ ---------
-// Needs lib/prelude.rs, lib/shift_bv.rs, lib/mod2_ring.rs, lib/mod2_mem.rs.
-// `ipow` and its basic lemmas are the same text as in lib/pow_lemmas.rs (that file drags in the Buffer stubs of the
-// integer pow units and cannot be included here).
-
-/// b^e for e >= 0 (1 for e <= 0): the mathematical power of the property statement
-pub open spec fn ipow(b: int, e: int) -> int
-    decreases e
-{
-    if e <= 0 { 1 } else { b * ipow(b, e - 1) }
-}
-
-pub proof fn lemma_ipow_add(b: int, m: int, n: int)
-    requires m >= 0, n >= 0,
-    ensures ipow(b, m + n) == ipow(b, m) * ipow(b, n),
-    decreases m
-{
-    if m > 0 {
-        lemma_ipow_add(b, m - 1, n);
-        let x = ipow(b, m - 1); let y = ipow(b, n);
-        assert(b * (x * y) == (b * x) * y) by (nonlinear_arith);
-    } else {
-        assert(1 * ipow(b, n) == ipow(b, n));
-    }
-}
-
-pub proof fn lemma_ipow_1(b: int)
-    ensures ipow(b, 1) == b, ipow(b, 0) == 1,
-{
-    assert(ipow(b, 1) == b * ipow(b, 0));
-    assert(b * 1 == b);
-}
-
-pub proof fn lemma_ipow_2(b: int)
-    ensures ipow(b, 2) == b * b,
-{
-    lemma_ipow_1(b);
-    assert(ipow(b, 2) == b * ipow(b, 1));
-}
-
-/// squaring doubles the exponent
-pub proof fn lemma_ipow_double(b: int, k: int)
-    requires k >= 0,
-    ensures ipow(b, 2 * k) == ipow(b, k) * ipow(b, k),
-{
-    lemma_ipow_add(b, k, k);
-}
-
-/// one more factor
-pub proof fn lemma_ipow_succ(b: int, k: int)
-    requires k >= 0,
-    ensures ipow(b, k + 1) == ipow(b, k) * b,
-{
-    lemma_ipow_add(b, k, 1);
-    lemma_ipow_1(b);
-}
-
-/// (b^m)^n == b^(m*n)
-pub proof fn lemma_ipow_mul(b: int, m: int, n: int)
-    requires m >= 0, n >= 0,
-    ensures ipow(ipow(b, m), n) == ipow(b, m * n), m * n >= 0,
-    decreases n
-{
-    assert(m * n >= 0) by (nonlinear_arith) requires m >= 0, n >= 0;
-    if n > 0 {
-        lemma_ipow_mul(b, m, n - 1);
-        assert(m * n == m + m * (n - 1)) by (nonlinear_arith);
-        assert(m * (n - 1) >= 0) by (nonlinear_arith) requires m >= 0, n >= 1;
-        lemma_ipow_add(b, m, m * (n - 1));
-    } else {
-        assert(m * 0 == 0);
-    }
-}
-
-// ---- residues of powers -------------------------------------------------------------------------------------------
-
-/// (b^k1 mod m) * (b^k2 mod m) mod m == b^(k1+k2) mod m
-pub proof fn lemma_mp_mul(r: int, m: int, k1: int, k2: int, x: int, y: int, z: int)
-    requires m >= 1, k1 >= 0, k2 >= 0, x == ipow(r, k1) % m, y == ipow(r, k2) % m, z == (x * y) % m,
-    ensures z == ipow(r, k1 + k2) % m,
-{
-    lemma_ipow_add(r, k1, k2);
-    vstd::arithmetic::div_mod::lemma_mul_mod_noop(ipow(r, k1), ipow(r, k2), m);
-}
+// ---- mp_lemmas.rs: ring-level lemmas of the multi-word modular exponentiation (unit int_modpow_large). Word = @W@ ------
+// Needs lib/prelude.rs, lib/shift_bv.rs, lib/mod2_ring.rs, lib/mod2_mem.rs, lib/mp_arith.rs.
 
 /// the stored words x (n words, below M, `shift` zero low bits) hold the residue  r^k mod m
 pub open spec fn is_pow(x: Seq<Word>, ring: &ConstLargeDivisor, r: int, k: int) -> bool {
@@ -116,453 +34,6 @@ pub proof fn lemma_mp_modulus_ge2(ring: &ConstLargeDivisor)
     // 2 * m * p >= B*B and 2 * p <= B  ==>  m >= B >= 2
     assert(m >= 2) by (nonlinear_arith)
         requires mv == m * p, 2 * mv >= B() * B(), 1 <= p, 2 * p <= B(), B() >= 4;
-}
-
-// ---- powers of two ------------------------------------------------------------------------------------------------
-
-/// B^k == 2^(BITS*k)
-pub proof fn lemma_mp_pw_pow2(k: int)
-    requires k >= 0,
-    ensures pw(k) == pow2(@BITS@ * k),
-    decreases k
-{
-    if k > 0 {
-        lemma_mp_pw_pow2(k - 1);
-        lemma_sh_pow2_bits();
-        lemma_sh_pow2_add(@BITS@, @BITS@ * (k - 1));
-    }
-}
-
-/// (d*y + c) / d == y + c/d,  (d*y + c) % d == c % d
-pub proof fn lemma_mp_div_add_mult(c: int, d: int, y: int)
-    requires d >= 1,
-    ensures (d * y + c) / d == y + c / d, (d * y + c) % d == c % d,
-{
-    vstd::arithmetic::div_mod::lemma_fundamental_div_mod(c, d);
-    vstd::arithmetic::div_mod::lemma_mod_bound(c, d);
-    let q = c / d;
-    let r = c % d;
-    assert(d * y + c == (y + q) * d + r) by (nonlinear_arith) requires c == d * q + r;
-    vstd::arithmetic::div_mod::lemma_fundamental_div_mod_converse(d * y + c, d, y + q, r);
-}
-
-/// (x / a) / b == x / (a*b)
-pub proof fn lemma_mp_divdiv(x: int, a: int, b: int)
-    requires x >= 0, a >= 1, b >= 1,
-    ensures a * b >= 1, (x / a) / b == x / (a * b),
-{
-    assert(a * b >= 1) by (nonlinear_arith) requires a >= 1, b >= 1;
-    vstd::arithmetic::div_mod::lemma_fundamental_div_mod(x, a);
-    vstd::arithmetic::div_mod::lemma_mod_bound(x, a);
-    let q1 = x / a;
-    let r1 = x % a;
-    vstd::arithmetic::div_mod::lemma_fundamental_div_mod(q1, b);
-    vstd::arithmetic::div_mod::lemma_mod_bound(q1, b);
-    let q2 = q1 / b;
-    let r2 = q1 % b;
-    // x = a*(b*q2 + r2) + r1 = (a*b)*q2 + (a*r2 + r1),  0 <= a*r2 + r1 < a*b
-    assert(x == q2 * (a * b) + (a * r2 + r1)) by (nonlinear_arith) requires x == a * q1 + r1, q1 == b * q2 + r2;
-    assert(0 <= a * r2 + r1 < a * b) by (nonlinear_arith) requires 0 <= r1 < a, 0 <= r2 < b, a >= 1;
-    vstd::arithmetic::div_mod::lemma_fundamental_div_mod_converse(x, a * b, q2, a * r2 + r1);
-}
-
-/// (x % (a*b)) / a == (x / a) % b
-pub proof fn lemma_mp_mod_div(x: int, a: int, b: int)
-    requires x >= 0, a >= 1, b >= 1,
-    ensures a * b >= 1, (x % (a * b)) / a == (x / a) % b,
-{
-    assert(a * b >= 1) by (nonlinear_arith) requires a >= 1, b >= 1;
-    vstd::arithmetic::div_mod::lemma_fundamental_div_mod(x, a);
-    vstd::arithmetic::div_mod::lemma_mod_bound(x, a);
-    let q1 = x / a;
-    let r1 = x % a;
-    vstd::arithmetic::div_mod::lemma_fundamental_div_mod(q1, b);
-    vstd::arithmetic::div_mod::lemma_mod_bound(q1, b);
-    let q2 = q1 / b;
-    let r2 = q1 % b;
-    assert(x == q2 * (a * b) + (a * r2 + r1)) by (nonlinear_arith) requires x == a * q1 + r1, q1 == b * q2 + r2;
-    assert(0 <= a * r2 + r1 < a * b) by (nonlinear_arith) requires 0 <= r1 < a, 0 <= r2 < b, a >= 1;
-    vstd::arithmetic::div_mod::lemma_fundamental_div_mod_converse(x, a * b, q2, a * r2 + r1);
-    // (a*r2 + r1) / a == r2
-    lemma_mp_div_add_mult(r1, a, r2);
-    assert(r1 / a == 0) by { vstd::arithmetic::div_mod::lemma_fundamental_div_mod_converse(r1, a, 0, r1); }
-}
-
-/// (x*g) / (d*g) == x / d
-pub proof fn lemma_mp_div_cancel(x: int, d: int, g: int)
-    requires x >= 0, d >= 1, g >= 1,
-    ensures d * g >= 1, (x * g) / (d * g) == x / d,
-{
-    assert(x * g >= 0) by (nonlinear_arith) requires x >= 0, g >= 1;
-    lemma_mp_divdiv(x * g, g, d);
-    lemma_div_of_multiple(x, g);
-    assert(g * d == d * g) by (nonlinear_arith);
-}
-
-/// exponents: 0 <= a <= b  ==>  2^b == 2^a * 2^(b-a)
-pub proof fn lemma_mp_pow2_split(a: int, b: int)
-    requires 0 <= a <= b,
-    ensures pow2(b) == pow2(a) * pow2(b - a), pow2(a) >= 1, pow2(b - a) >= 1,
-{
-    lemma_sh_pow2_add(a, b - a);
-    lemma_sh_pow2_pos(a);
-    lemma_sh_pow2_pos(b - a);
-}
-
-/// a < b ==> 2^(b-a) is even
-pub proof fn lemma_mp_pow2_even(k: int)
-    requires k >= 1,
-    ensures pow2(k) == 2 * pow2(k - 1), pow2(k - 1) >= 1,
-{
-    lemma_sh_pow2_pos(k - 1);
-}
-
-// ---- bit `bit` of the exponent, read from its words ----------------------------------------------------------------
-
-/// X = low + c*P + h*B*P with low < P:  bit (bi) of c is bit (log2(P) + bi) of X
-pub proof fn lemma_mp_bit_pure(x: int, low: int, c: int, h: int, p: int, bi: int)
-    requires 0 <= low < p, 0 <= c < B(), h >= 0, 0 <= bi < @BITS@, x == low + c * p + (h * B()) * p,
-    ensures p * pow2(bi) >= 1, x >= 0, (x / (p * pow2(bi))) % 2 == (c / pow2(bi)) % 2,
-{
-    let e = pow2(bi);
-    lemma_sh_pow2_pos(bi);
-    let y = c + h * B();
-    assert(h * B() >= 0) by (nonlinear_arith) requires h >= 0, B() >= 1;
-    assert(x == p * y + low) by (nonlinear_arith) requires x == low + c * p + (h * B()) * p, y == c + h * B();
-    assert(p * y >= 0) by (nonlinear_arith) requires p >= 1, y >= 0;
-    lemma_mp_div_add_mult(low, p, y);
-    vstd::arithmetic::div_mod::lemma_fundamental_div_mod_converse(low, p, 0, low);
-    assert(x / p == y);
-    lemma_mp_divdiv(x, p, e);
-    // y / e == h * 2^(BITS-bi) + c / e
-    lemma_mp_pow2_split(bi, @BITS@);
-    lemma_sh_pow2_bits();
-    let g = pow2(@BITS@ - bi);
-    lemma_mp_pow2_even(@BITS@ - bi);
-    let g2 = pow2(@BITS@ - bi - 1);
-    assert(y == e * (h * g) + c) by (nonlinear_arith) requires y == c + h * B(), B() == e * g;
-    lemma_mp_div_add_mult(c, e, h * g);
-    // h*g is even
-    assert(h * g + c / e == 2 * (h * g2) + c / e) by (nonlinear_arith) requires g == 2 * g2;
-    lemma_mp_div_add_mult(c / e, 2, h * g2);
-}
-
-/// bit `BITS*idx + bi` of val(w) is bit bi of the word w[idx]
-pub proof fn lemma_mp_bit_of_word(w: Seq<Word>, idx: int, bi: int)
-    requires 0 <= idx < w.len(), 0 <= bi < @BITS@,
-    ensures val(w) >= 0, (val(w) / pow2(@BITS@ * idx + bi)) % 2 == ((w[idx] as int) / pow2(bi)) % 2,
-{
-    let len = w.len() as int;
-    lemma_valn_split(w, idx + 1, len);
-    let hi = w.subrange(idx + 1, len);
-    lemma_valn_bound(hi, len - idx - 1);
-    lemma_valn_bound(w, idx);
-    lemma_pw_pos(idx);
-    let h = valn(hi, len - idx - 1);
-    let p = pw(idx);
-    assert(pw(idx + 1) == B() * pw(idx));
-    assert(pw(idx + 1) * h == (h * B()) * p) by (nonlinear_arith) requires pw(idx + 1) == B() * p;
-    assert(valn(w, idx + 1) == valn(w, idx) + (w[idx] as int) * p);
-    lemma_mp_bit_pure(val(w), valn(w, idx), w[idx] as int, h, p, bi);
-    lemma_mp_pw_pow2(idx);
-    assert(@BITS@ * idx >= 0) by (nonlinear_arith) requires idx >= 0;
-    lemma_sh_pow2_add(@BITS@ * idx, bi);
-}
-
-/// the bit test of the code: `w & (1 << bi) != 0`  <==>  bit bi of w is set
-pub proof fn lemma_mp_bit_test(w: @W@, bi: u32)
-    requires bi < @BITS@,
-    ensures ((w & ((1 as @W@) << bi)) != 0) == (((w as int) / pow2(bi as int)) % 2 == 1),
-{
-    let t = w >> bi;
-    assert(((w & ((1 as @W@) << bi)) != 0) == (t % 2 == 1)) by (bit_vector) requires bi < @BITS@, t == w >> bi;
-    lemma_sh_shr_div_w(w, bi);
-}
-
-// ---- the window of the sliding-window method ------------------------------------------------------------------------
-
-/// The two exponent words around bit position BITS*idx + bi, as a double word at word position idx of E*B
-/// (`next` = the word below `cur` = w[idx], 0 when there is none).  Returns (low, h):
-///     val(w) * B == low + (next + cur*B) * B^idx + h * B^2 * B^idx,   0 <= low < B^idx,  h >= 0
-pub proof fn lemma_mp_dword_at(w: Seq<Word>, idx: int, next: int) -> (lh: (int, int))
-    requires 0 <= idx < w.len(), next == (if idx == 0 { 0 } else { w[idx - 1] as int }),
-    ensures 0 <= lh.0 < pw(idx), lh.1 >= 0,
-        val(w) * B() == lh.0 + (next + (w[idx] as int) * B()) * pw(idx) + (lh.1 * (B() * B())) * pw(idx),
-{
-    let len = w.len() as int;
-    let cur = w[idx] as int;
-    lemma_valn_split(w, idx + 1, len);
-    let hi = w.subrange(idx + 1, len);
-    lemma_valn_bound(hi, len - idx - 1);
-    let h = valn(hi, len - idx - 1);
-    let p = pw(idx);
-    lemma_pw_pos(idx);
-    assert(pw(idx + 1) == B() * p);
-    assert(valn(w, idx + 1) == valn(w, idx) + cur * p);
-    if idx == 0 {
-        assert(valn(w, 0) == 0);
-        assert(p == 1);
-        assert(val(w) * B() == 0 + (0 + cur * B()) * p + (h * (B() * B())) * p) by (nonlinear_arith)
-            requires val(w) == 0 + cur * p + pw(idx + 1) * h, pw(idx + 1) == B() * p, p == 1;
-        (0, h)
-    } else {
-        let q = pw(idx - 1);
-        lemma_valn_bound(w, idx - 1);
-        assert(p == B() * q);
-        assert(valn(w, idx) == valn(w, idx - 1) + next * q);
-        let low = valn(w, idx - 1) * B();
-        assert(0 <= low < p) by (nonlinear_arith) requires 0 <= valn(w, idx - 1) < q, p == B() * q, low == valn(w, idx - 1) * B(), B() >= 1;
-        assert(val(w) * B() == low + (next + cur * B()) * p + (h * (B() * B())) * p) by (nonlinear_arith)
-            requires val(w) == valn(w, idx - 1) + next * q + cur * p + pw(idx + 1) * h, pw(idx + 1) == B() * p, p == B() * q,
-                low == valn(w, idx - 1) * B();
-        (low, h)
-    }
-}
-
-/// The `window_len` bits of E = val(exp_words) from bit position `bit` = BITS*idx + bi DOWNWARDS (zero-padded below bit 0),
-/// as the code extracts them from the double word D = next + cur*B:    (D >> s) mod 2^wl,  s = bi + 1 + BITS - wl.
-pub proof fn lemma_mp_window_dword(e: int, low: int, d: int, h: int, idx: int, bi: int, wl: int)
-    requires e >= 0, idx >= 0, 0 <= low < pw(idx), 0 <= d < B() * B(), h >= 0, 0 <= bi < @BITS@, 1 <= wl < @BITS@,
-        e * B() == low + d * pw(idx) + (h * (B() * B())) * pw(idx),
-    ensures pow2(@BITS@ * idx + bi) >= 1, pow2(wl) >= 1, pow2(bi + 1 + @BITS@ - wl) >= 1, pow2(wl - 1) >= 1,
-        (d / pow2(bi + 1 + @BITS@ - wl)) % pow2(wl) == ((e * pow2(wl - 1)) / pow2(@BITS@ * idx + bi)) % pow2(wl),
-{
-    let s = bi + 1 + @BITS@ - wl;
-    let bit = @BITS@ * idx + bi;
-    let p = pw(idx);
-    let bb = B() * B();
-    assert(@BITS@ * idx >= 0) by (nonlinear_arith) requires idx >= 0;
-    lemma_pw_pos(idx);
-    lemma_sh_pow2_pos(bit); lemma_sh_pow2_pos(wl); lemma_sh_pow2_pos(s); lemma_sh_pow2_pos(wl - 1);
-    lemma_sh_pow2_bits();
-    lemma_mp_pw_pow2(idx);
-    let y = e * B();
-    assert(y >= 0) by (nonlinear_arith) requires e >= 0, B() >= 1, y == e * B();
-    // y / p == d + h*B^2
-    let z = d + h * bb;
-    assert(h * bb >= 0) by (nonlinear_arith) requires h >= 0, bb >= 1;
-    assert(y == p * z + low) by (nonlinear_arith) requires y == low + d * p + (h * bb) * p, z == d + h * bb;
-    lemma_mp_div_add_mult(low, p, z);
-    vstd::arithmetic::div_mod::lemma_fundamental_div_mod_converse(low, p, 0, low);
-    assert(y / p == z);
-    // (y / p) / 2^s == y / 2^(BITS*idx + s)
-    lemma_mp_divdiv(y, p, pow2(s));
-    lemma_sh_pow2_add(@BITS@ * idx, s);
-    // y = F * 2^g, 2^(BITS*idx + s) = 2^bit * 2^g  with g = BITS - wl + 1, F = e * 2^(wl-1)
-    let g = @BITS@ - wl + 1;
-    let f = e * pow2(wl - 1);
-    lemma_sh_pow2_pos(g);
-    lemma_sh_pow2_add(wl - 1, g);
-    lemma_sh_pow2_add(bit, g);
-    assert(f >= 0) by (nonlinear_arith) requires e >= 0, pow2(wl - 1) >= 1, f == e * pow2(wl - 1);
-    assert(y == f * pow2(g)) by (nonlinear_arith) requires y == e * B(), B() == pow2(wl - 1) * pow2(g), f == e * pow2(wl - 1);
-    lemma_mp_div_cancel(f, pow2(bit), pow2(g));
-    assert(@BITS@ * idx + s == bit + g);
-    let t = f / pow2(bit);
-    assert(z / pow2(s) == t);
-    // z / 2^s == d / 2^s + h * 2^(2*BITS - s),   2*BITS - s >= wl
-    let u = 2 * @BITS@ - s;
-    lemma_sh_pow2_add(@BITS@, @BITS@);
-    lemma_sh_pow2_add(s, u);
-    lemma_sh_pow2_pos(u);
-    assert(z == pow2(s) * (h * pow2(u)) + d) by (nonlinear_arith) requires z == d + h * bb, bb == pow2(s) * pow2(u);
-    lemma_mp_div_add_mult(d, pow2(s), h * pow2(u));
-    lemma_mp_pow2_split(wl, u);
-    let v = pow2(u - wl);
-    assert(h * pow2(u) + d / pow2(s) == pow2(wl) * (h * v) + d / pow2(s)) by (nonlinear_arith) requires pow2(u) == pow2(wl) * v;
-    lemma_mp_div_add_mult(d / pow2(s), pow2(wl), h * v);
-}
-
-/// Shrinking the window to its odd part.  wd = the wl bits of E from `bit` downwards (zero-padded), bit `bit` of E set,
-/// tz = trailing zeros of wd.  With nb = wl - tz (the code's num_bits) and bit2 = bit - (nb - 1) (the new `bit`):
-/// win = wd >> tz is odd, it is the nb bits of E from `bit` down to `bit2`, and
-///     E >> bit2  ==  (E >> (bit+1)) * 2^nb + win.
-pub proof fn lemma_mp_window(e: int, bit: int, wl: int, wd: int, tz: int)
-    requires e >= 0, bit >= 0, wl >= 1, tz >= 0, (e / pow2(bit)) % 2 == 1,
-        wd == ((e * pow2(wl - 1)) / pow2(bit)) % pow2(wl),
-        wd != 0 ==> wd % pow2(tz) == 0 && (wd / pow2(tz)) % 2 == 1,
-    ensures wd >= 1, tz <= wl - 1, wl - tz - 1 <= bit,
-        (wd / pow2(tz)) % 2 == 1, 1 <= wd / pow2(tz) < pow2(wl - tz),
-        e / pow2(bit - (wl - tz - 1)) == (e / pow2(bit + 1)) * pow2(wl - tz) + wd / pow2(tz),
-{
-    let f = e * pow2(wl - 1);
-    let pb = pow2(bit);
-    let t = f / pb;
-    lemma_sh_pow2_pos(bit); lemma_sh_pow2_pos(wl); lemma_sh_pow2_pos(wl - 1); lemma_sh_pow2_pos(tz);
-    assert(f >= 0) by (nonlinear_arith) requires e >= 0, pow2(wl - 1) >= 1, f == e * pow2(wl - 1);
-    vstd::arithmetic::div_mod::lemma_div_pos_is_pos(f, pb);
-    // (1) the top bit of the window is bit `bit` of E:  wd / 2^(wl-1) == (E / 2^bit) % 2 == 1, so wd >= 2^(wl-1) >= 1
-    lemma_mp_pow2_even(wl);
-    lemma_mp_mod_div(t, pow2(wl - 1), 2);
-    assert(pow2(wl - 1) * 2 == pow2(wl));
-    lemma_mp_divdiv(f, pb, pow2(wl - 1));
-    lemma_mp_div_cancel(e, pb, pow2(wl - 1));
-    assert(pb * pow2(wl - 1) >= 1);
-    assert(t / pow2(wl - 1) == e / pb);
-    assert(wd / pow2(wl - 1) == 1);
-    vstd::arithmetic::div_mod::lemma_fundamental_div_mod(wd, pow2(wl - 1));
-    vstd::arithmetic::div_mod::lemma_mod_bound(wd, pow2(wl - 1));
-    assert(wd >= pow2(wl - 1)) by (nonlinear_arith)
-        requires wd == pow2(wl - 1) * (wd / pow2(wl - 1)) + wd % pow2(wl - 1), wd / pow2(wl - 1) == 1, wd % pow2(wl - 1) >= 0;
-    vstd::arithmetic::div_mod::lemma_mod_bound(t, pow2(wl));
-    // (2) tz <= wl - 1
-    let win = wd / pow2(tz);
-    vstd::arithmetic::div_mod::lemma_fundamental_div_mod(wd, pow2(tz));
-    assert(wd == pow2(tz) * win);
-    if tz >= wl {
-        lemma_sh_pow2_mono(wl, tz);
-        assert(win >= 1);
-        assert(pow2(tz) * win >= pow2(tz)) by (nonlinear_arith) requires win >= 1, pow2(tz) >= 1;
-        assert(false);
-    }
-    let nb = wl - tz;
-    // (3) nb - 1 <= bit:  for bit < wl - 1 the window is zero-padded with a = wl-1-bit low bits, so tz >= a
-    if bit < wl - 1 {
-        let a = wl - 1 - bit;
-        lemma_sh_pow2_add(a, bit);
-        assert(f == (e * pow2(a)) * pb) by (nonlinear_arith) requires f == e * pow2(wl - 1), pow2(wl - 1) == pow2(a) * pb;
-        lemma_div_of_multiple(e * pow2(a), pb);
-        assert(t == e * pow2(a));
-        if tz < a {
-            // t = 2^(tz+1) * c, 2^wl = 2^(tz+1) * c2  ==> wd = t % 2^wl is a multiple of 2^(tz+1): win even
-            lemma_mp_pow2_split(tz + 1, a);
-            lemma_mp_pow2_split(tz + 1, wl);
-            let c = e * pow2(a - tz - 1);
-            assert(t == pow2(tz + 1) * c) by (nonlinear_arith) requires t == e * pow2(a), pow2(a) == pow2(tz + 1) * pow2(a - tz - 1), c == e * pow2(a - tz - 1);
-            assert(c >= 0) by (nonlinear_arith) requires e >= 0, pow2(a - tz - 1) >= 1, c == e * pow2(a - tz - 1);
-            assert(t == c * pow2(tz + 1)) by (nonlinear_arith) requires t == pow2(tz + 1) * c;
-            lemma_mp_mod_div(t, pow2(tz + 1), pow2(wl - tz - 1));
-            vstd::arithmetic::div_mod::lemma_fundamental_div_mod(wd, pow2(tz + 1));
-            vstd::arithmetic::div_mod::lemma_mod_mod(t, pow2(tz + 1), pow2(wl - tz - 1));
-            lemma_div_of_multiple(c, pow2(tz + 1));
-            assert(wd % pow2(tz + 1) == 0);
-            let k = wd / pow2(tz + 1);
-            lemma_mp_pow2_even(tz + 1);
-            assert(wd == pow2(tz) * (2 * k)) by (nonlinear_arith) requires wd == pow2(tz + 1) * k, pow2(tz + 1) == 2 * pow2(tz);
-            assert(wd == (2 * k) * pow2(tz)) by (nonlinear_arith) requires wd == pow2(tz) * (2 * k);
-            lemma_div_of_multiple(2 * k, pow2(tz));
-            assert(win == 2 * k);
-            lemma_mp_div_add_mult(0, 2, k);
-            assert(false);
-        }
-    }
-    let bit2 = bit - (nb - 1);
-    // (4) t / 2^tz == E / 2^bit2
-    lemma_mp_divdiv(f, pb, pow2(tz));
-    lemma_sh_pow2_add(bit, tz);
-    lemma_sh_pow2_add(bit2, wl - 1);
-    lemma_sh_pow2_pos(bit2);
-    lemma_mp_div_cancel(e, pow2(bit2), pow2(wl - 1));
-    assert(bit + tz == bit2 + (wl - 1));
-    let x = e / pow2(bit2);
-    assert(t / pow2(tz) == x);
-    // (5) win == (t / 2^tz) % 2^nb
-    lemma_mp_pow2_split(tz, wl);
-    lemma_mp_mod_div(t, pow2(tz), pow2(nb));
-    assert(win == x % pow2(nb));
-    // (6) x == (E / 2^(bit+1)) * 2^nb + win
-    lemma_mp_divdiv(e, pow2(bit2), pow2(nb));
-    lemma_sh_pow2_add(bit2, nb);
-    assert(bit2 + nb == bit + 1);
-    vstd::arithmetic::div_mod::lemma_fundamental_div_mod(x, pow2(nb));
-    vstd::arithmetic::div_mod::lemma_mod_bound(x, pow2(nb));
-    assert(pow2(nb) * (x / pow2(nb)) == (x / pow2(nb)) * pow2(nb)) by (nonlinear_arith);
-}
-
-// ---- machine words ----------------------------------------------------------------------------------------------------
-
-pub open spec fn mp_tz(w: @W@) -> u32 { vstd::std_specs::bits::@W@_trailing_zeros(w) }
-
-/// trailing_zeros of a non-zero word: the low tz bits are zero and the next one is set
-pub proof fn lemma_mp_tz(w: @W@)
-    ensures mp_tz(w) <= @BITS@, (w == 0) == (mp_tz(w) == @BITS@),
-        w != 0 ==> (w as int) % pow2(mp_tz(w) as int) == 0 && ((w as int) / pow2(mp_tz(w) as int)) % 2 == 1
-            && (w >> mp_tz(w)) as int == (w as int) / pow2(mp_tz(w) as int),
-{
-    let r = mp_tz(w);
-    vstd::std_specs::bits::axiom_@W@_trailing_zeros(w);
-    if r < @BITS@ {
-        let rw = r as @W@;
-        let up = (@BITS@ - r) as @W@;
-        assert(sub(@BITS@ as @W@, rw) == up);
-        assert(w << up == 0);
-        assert(((w >> rw) & 1) == 1);
-        let t = w >> r;
-        assert(t % 2 == 1 && (t << r) == w) by (bit_vector)
-            requires r < @BITS@, rw == r as @W@, up == @BITS@ - rw, w << up == 0, ((w >> rw) & 1) == 1, t == w >> r;
-        lemma_sh_low_clear(w, r);
-        lemma_sh_shr_div_w(w, r);
-    }
-}
-
-/// (x >> s) == x / 2^s for double words
-pub proof fn lemma_mp_shr_div_d(x: @D@, s: u32)
-    requires s < 2 * @BITS@,
-    ensures (x >> s) as int == (x as int) / pow2(s as int),
-    decreases s
-{
-    if s == 0 {
-        assert(x >> 0u32 == x) by (bit_vector);
-        vstd::arithmetic::div_mod::lemma_fundamental_div_mod_converse(x as int, 1, x as int, 0);
-    } else {
-        let s1 = (s - 1) as u32;
-        lemma_mp_shr_div_d(x, s1);
-        let y = x >> s1;
-        assert(x >> s == y >> 1u32) by (bit_vector) requires 0 < s < 2 * @BITS@, s1 == s - 1, y == x >> s1;
-        assert(y >> 1u32 == y / 2) by (bit_vector);
-        lemma_sh_pow2_pos(s1 as int);
-        lemma_mp_divdiv(x as int, pow2(s1 as int), 2);
-        assert(pow2(s as int) == 2 * pow2(s1 as int));
-        assert(pow2(s1 as int) * 2 == pow2(s as int));
-    }
-}
-
-/// `1usize << s` is 2^s
-pub proof fn lemma_mp_one_shl_usize(s: u32)
-    requires s < 64,
-    ensures (1usize << s) as int == pow2(s as int), 1 <= pow2(s as int) <= usize::MAX,
-{
-    lemma_sh_one_shl_d(s);
-    lemma_sh_pow2_pos(s as int);
-    assert((1usize << s) as @D@ == ((1 as @D@) << s)) by (bit_vector) requires s < 64;
-}
-
-/// the masked low word of the shifted double word:  (split_dword(dw >> s).0 & ones_word(wl))  ==  (dw / 2^s) mod 2^wl
-pub proof fn lemma_mp_window_words(dw: @D@, s: u32, w0: @W@, hi: @W@, ones: @W@, wl: u32)
-    requires s < 2 * @BITS@, 1 <= wl < @BITS@, w0 as int + (hi as int) * B() == (dw >> s) as int,
-        ones as int == pow2(wl as int) - 1,
-    ensures ((w0 & ones) as int) == ((dw as int) / pow2(s as int)) % pow2(wl as int),
-{
-    let x = (dw as int) / pow2(s as int);
-    let pl = pow2(wl as int);
-    lemma_mp_shr_div_d(dw, s);
-    lemma_sh_pow2_pos(wl as int);
-    vstd::arithmetic::div_mod::lemma_fundamental_div_mod_converse(x, B(), hi as int, w0 as int);
-    assert(w0 as int == x % B());
-    // r = w0 & ones == w0 % 2^wl
-    let m1 = (1 as @W@) << wl;
-    lemma_sh_one_shl_w(wl);
-    assert(ones == (m1 - 1) as @W@);
-    let r = w0 & ones;
-    let d = (w0 - r) as @W@;
-    assert(r <= ones && r <= w0 && ((d >> wl) << wl) == d) by (bit_vector)
-        requires wl < @BITS@, m1 == (1 as @W@) << wl, ones == (m1 - 1) as @W@, r == w0 & ones, d == (w0 - r) as @W@;
-    lemma_sh_low_clear(d, wl);
-    lemma_exact_div(d as int, pl);
-    let q = (d as int) / pl;
-    assert(w0 as int == q * pl + r as int);
-    vstd::arithmetic::div_mod::lemma_fundamental_div_mod_converse(w0 as int, pl, q, r as int);
-    // (x % B) % 2^wl == x % 2^wl
-    lemma_mp_pow2_split(wl as int, @BITS@);
-    lemma_sh_pow2_bits();
-    vstd::arithmetic::div_mod::lemma_mod_mod(x, pl, pow2(@BITS@ - wl as int));
-}
-
-pub proof fn lemma_mp_odd_and1(w: @W@)
-    requires (w as int) % 2 == 1,
-    ensures w & 1 == 1, (w >> 1u32) as int == (w as int) / 2, w as int == 2 * ((w >> 1u32) as int) + 1,
-{
-    assert((w % 2 == 1) ==> (w & 1 == 1 && w == 2 * (w >> 1u32) + 1 && (w >> 1u32) == w / 2)) by (bit_vector);
 }
 
 // ---- the table of odd powers ------------------------------------------------------------------------------------------
@@ -609,106 +80,3 @@ pub proof fn lemma_mp_is_pow_mul(x: Seq<Word>, y: Seq<Word>, z: Seq<Word>, ring:
     lemma_mp_mul(r, modulus(ring), k1, k2, val(x) / ring_p(ring), val(y) / ring_p(ring), val(z) / ring_p(ring));
 }
 
-// ---- exponent bookkeeping of the main loop ------------------------------------------------------------------------------
-
-/// 2^(bit+1) <= val(w)  ==>  the word holding bit `bit` exists
-pub proof fn lemma_mp_bit_in_range(w: Seq<Word>, bit: int)
-    requires bit >= 0, pow2(bit + 1) <= val(w),
-    ensures bit / @BITS@ < w.len(),
-{
-    let len = w.len() as int;
-    lemma_valn_bound(w, len);
-    lemma_mp_pw_pow2(len);
-    if bit + 1 >= @BITS@ * len {
-        assert(@BITS@ * len >= 0) by (nonlinear_arith) requires len >= 0;
-        lemma_sh_pow2_mono(@BITS@ * len, bit + 1);
-        assert(false);
-    }
-}
-
-/// E >> bit == 2 * (E >> (bit+1)) + [bit `bit` of E]
-pub proof fn lemma_mp_bit_step(e: int, bit: int)
-    requires e >= 0, bit >= 0,
-    ensures e / pow2(bit) == 2 * (e / pow2(bit + 1)) + (e / pow2(bit)) % 2, e / pow2(bit + 1) >= 0, e / pow2(bit) >= 0,
-{
-    lemma_sh_pow2_pos(bit);
-    lemma_mp_divdiv(e, pow2(bit), 2);
-    assert(pow2(bit) * 2 == pow2(bit + 1));
-    let x = e / pow2(bit);
-    vstd::arithmetic::div_mod::lemma_fundamental_div_mod(x, 2);
-    vstd::arithmetic::div_mod::lemma_div_pos_is_pos(e, pow2(bit));
-    vstd::arithmetic::div_mod::lemma_div_pos_is_pos(x, 2);
-}
-
-/// the leading bit: 2^(l-1) <= E < 2^l  ==>  E >> (l-1) == 1
-pub proof fn lemma_mp_top_bit(e: int, l: int)
-    requires l >= 1, pow2(l - 1) <= e < pow2(l),
-    ensures e / pow2(l - 1) == 1,
-{
-    lemma_sh_pow2_pos(l - 1);
-    vstd::arithmetic::div_mod::lemma_fundamental_div_mod_converse(e, pow2(l - 1), 1, e - pow2(l - 1));
-}
-
-/// K * 2^(i-1) doubled
-pub proof fn lemma_mp_sqr_exp(k: int, i: int)
-    requires i >= 1, k >= 0,
-    ensures k * pow2(i - 1) + k * pow2(i - 1) == k * pow2(i), k * pow2(i - 1) >= 0,
-{
-    lemma_sh_pow2_pos(i - 1);
-    assert(k * pow2(i - 1) + k * pow2(i - 1) == k * pow2(i)) by (nonlinear_arith) requires pow2(i) == 2 * pow2(i - 1);
-    assert(k * pow2(i - 1) >= 0) by (nonlinear_arith) requires k >= 0, pow2(i - 1) >= 1;
-}
-
-/// (2*k0) * 2^(nb-1) + win == k0 * 2^nb + win
-pub proof fn lemma_mp_window_exp(k0: int, nb: int, win: int, x: int)
-    requires nb >= 1, x == k0 * pow2(nb) + win,
-    ensures (2 * k0) * pow2(nb - 1) + win == x,
-{
-    assert((2 * k0) * pow2(nb - 1) == k0 * pow2(nb)) by (nonlinear_arith) requires pow2(nb) == 2 * pow2(nb - 1);
-}
-
-/// the table index of an odd window of at most wl bits
-pub proof fn lemma_mp_entry_idx(win: int, nb: int, wl: int, idx: int)
-    requires 1 <= nb <= wl, 1 <= win < pow2(nb), win % 2 == 1, idx == win / 2,
-    ensures 0 <= idx < pow2(wl - 1), win == 2 * idx + 1,
-{
-    vstd::arithmetic::div_mod::lemma_fundamental_div_mod(win, 2);
-    lemma_sh_pow2_mono(nb, wl);
-    assert(pow2(wl) == 2 * pow2(wl - 1));
-}
-
-pub proof fn lemma_mp_div1(e: int)
-    ensures e / pow2(0) == e,
-{
-    assert(pow2(0) == 1);
-    vstd::arithmetic::div_mod::lemma_fundamental_div_mod_converse(e, 1, e, 0);
-}
-
-pub proof fn lemma_mp_div_nonneg(e: int, k: int)
-    requires e >= 0,
-    ensures e / pow2(k) >= 0,
-{
-    lemma_sh_pow2_pos(k);
-    vstd::arithmetic::div_mod::lemma_div_pos_is_pos(e, pow2(k));
-}
-
-/// choose_pow_window_len: the cost expression `(1 << (w-1)) - 1 + n / (w+1)` of a window width w < 64 does not overflow
-pub open spec fn mp_cost_ok(n: usize, w: u32) -> bool {
-    1 <= w < 64 && (1usize << ((w - 1) as u32)) >= 1
-        && (1usize << ((w - 1) as u32)) as int - 1 + (n as int) / (w as int + 1) <= usize::MAX
-}
-
-pub proof fn lemma_mp_cost_ok(n: usize, w: u32)
-    requires 1 <= w < 64,
-    ensures mp_cost_ok(n, w),
-{
-    lemma_mp_one_shl_usize((w - 1) as u32);
-    lemma_sh_pow2_mono(w as int - 1, 62);
-    assert(pow2(62) == 0x4000_0000_0000_0000) by (compute);
-    let k = w as int + 1;
-    let q = (n as int) / k;
-    vstd::arithmetic::div_mod::lemma_fundamental_div_mod(n as int, k);
-    vstd::arithmetic::div_mod::lemma_mod_bound(n as int, k);
-    vstd::arithmetic::div_mod::lemma_div_pos_is_pos(n as int, k);
-    assert(2 * q <= n as int) by (nonlinear_arith) requires n as int == k * q + (n as int) % k, (n as int) % k >= 0, k >= 2, q >= 0;
-}
